@@ -326,3 +326,15 @@ func keyLits(k *Type) []string {
 	}
 	return []string{"0", "1", "2", "3", "100", "255"}
 }
+
+// Decls returns the type declarations of the universe.
+func (u *Universe) Decls() string { return u.decls.String() }
+
+// EmitShow writes the show_<ID> functions.
+func (u *Universe) EmitShow(b *strings.Builder) { u.emitShow(b) }
+
+// KeyLits returns literal keys of the fixed key universe of a map key type.
+func KeyLits(k *Type) []string { return keyLits(k) }
+
+// Helpers is the source of helpers.go (emit, ix, clamp, classOf, run …).
+const Helpers = helpers
